@@ -182,6 +182,16 @@ impl Message {
                     Some(Value::String(s)) => Some(s.clone()),
                     _ => return None,
                 };
+                // JWS General JSON Serialization (RFC 7515 §7.2.1) with exactly one signature
+                // denotes the same (protected, payload, signature) triple as the flattened form
+                if let (None, None, Some(Value::Array(sigs))) = (o.get("protected"), o.get("signature"), o.get("signatures")) {
+                    if let [Value::Object(one)] = sigs.as_slice() {
+                        let h = one.get("protected").and_then(Value::as_str)?.to_string();
+                        let sg = one.get("signature").and_then(Value::as_str)?.to_string();
+                        return Some(Message { h, p: g("payload")?, s: sg, disclosures: ds, kb, jwt_raw: None });
+                    }
+                    return None;
+                }
                 Some(Message { h: g("protected")?, p: g("payload")?, s: g("signature")?, disclosures: ds, kb, jwt_raw: None })
             }
         }
